@@ -1,6 +1,7 @@
 package props
 
 import (
+	"errors"
 	"fmt"
 	"regexp"
 	"sort"
@@ -229,7 +230,76 @@ func c10Check(c *core.Ctx, n *spec.Node, o *run.Outcome, exp *ref.Result, alt *r
 	return true
 }
 
+// c10NonTestPaths: an error returned by a PostTransform / Preprocess function - plain, wrapping another error, or wrapping a ZogIssue
+// that carries a path of its own (e.g. the first issue of another schema run inside the transform) - is an issue of the node it
+// came from: it sits under that node's path (a ZogIssue returned directly keeps its own path instead).
+func c10NonTestPaths(c *core.Ctx) bool {
+	inner := &z.ZogIssue{Code: "inner_code", Path: "", Message: "inner"}
+	kind := c.R.Intn(3)
+	ret := func(any) error {
+		switch kind {
+		case 0:
+			return errors.New("refused")
+		case 1:
+			return fmt.Errorf("lookup: %w", inner)
+		}
+		return errors.Join(errors.New("first"), inner)
+	}
+	posts := []spec.Post{{Name: fmt.Sprintf("returns-error(kind %d)", kind), Fn: ret}}
+	leaf := func() *spec.Node { return &spec.Node{Kind: spec.String, Witness: "value"} }
+	var root *spec.Node
+	var want string
+	switch c.R.Intn(6) {
+	case 0:
+		in := structOf("x", leaf())
+		in.Posts = posts
+		root, want = structOf("a", leaf(), "in", in), "in"
+	case 1:
+		sl := sliceOf(leaf())
+		sl.Posts = posts
+		root, want = structOf("a", leaf(), "l", sl), "l"
+	case 2:
+		l := leaf()
+		l.Posts = posts
+		root, want = structOf("contact", structOf("email", l)), "contact.email"
+	case 3:
+		in := structOf("x", leaf())
+		in.Posts = posts
+		root, want = structOf("l", sliceOf(in)), "l[0]"
+	case 4:
+		pre := &spec.Node{Kind: spec.Pre, Elem: leaf(), PreName: "refuses", PreFn: func(d any) (any, error) { return nil, ret(d) }}
+		root, want = structOf("a", leaf(), "p", pre), "p"
+	default:
+		l := leaf()
+		l.Posts = posts
+		root, want = structOf("backups", sliceOf(l)), "backups[0]"
+	}
+	root.Number()
+	v := gen.ValueTree(c.R, root, gen.InOpts{ValidPct: 100}, true)
+	data := gen.ToParseMap(root, v)
+	for _, mode := range []ref.Mode{ref.Parse, ref.Validate} {
+		var o *run.Outcome
+		if mode == ref.Parse {
+			o = run.Parse(spec.Build(root, nil), data, nil)
+		} else {
+			o = run.Validate(spec.Build(root, nil), v)
+		}
+		c.Eval(1)
+		bad := mapInvariants(o.RawMap)
+		if o.Panicked || len(o.Issues) != 1 || o.Issues[0].Path != want || o.Issues[0].Key != want || o.Issues[0].Ptr == inner || len(bad) > 0 {
+			c.Violation("issue-paths|non-test-error|"+mode.String(), map[string]any{"schema": root.Source(), "value": obs.Render(v), "the_transform_returns": []string{"a plain error", "an error wrapping a ZogIssue (%w)", "errors.Join of an error and a ZogIssue"}[kind],
+				"want": "exactly one new issue under key and path " + want, "issues": issuesText(o), "broken_invariants": bad, "panic": fmt.Sprint(o.Panic)})
+			return false
+		}
+	}
+	c.Count("non_test_error_paths", 2)
+	return true
+}
+
 func (c10) RunCase(c *core.Ctx) {
+	if c.Case%20 == 6 && !c10NonTestPaths(c) {
+		return
+	}
 	if c.Case%3 == 2 {
 		c10Random(c)
 		return
